@@ -161,6 +161,17 @@ CHECKS["C17"] = (
     "must be bit-identical to SolveUnc.",
     "Explicit nonlinear terms that diverge in the reference itself are out of domain; convergence orders are "
     "asserted with a margin below the theoretical 1 and 2.", "3/C17")
+CHECKS["C09"] = (
+    "schedule-forcing differential test: Hypothesis cases + exhaustive stype x ic x getresp x time grid; "
+    "per-task delays and completion tickets injected by replacing the module-level worker functions; oracle = "
+    "bit-identity of every output with the parallel='no' result",
+    "Generated-input search over signals, frequency vectors, all stype/ic/peak/time/getresp options, worker "
+    "counts 1..16 and forced completion orders (reverse, random, straggler) for srs and fdepsd: every array, "
+    "DataFrame, Series and scalar of the parallel result must be bit-identical (values, dtype, shape, index) "
+    "to the serial result. The observed completion order of every case is recorded (non-trivial only if it "
+    "differs from task order with >= 2 workers).",
+    "Completion orders are sampled, not enumerated; relies on the fork start method to carry the wrappers and "
+    "their shared ticket counter into the pool workers (no source hook needed).", "3/C09")
 
 NOT_APPLICABLE = {
 }
